@@ -4,6 +4,7 @@ Main oracle (C01/C02): in every reached state the clock rate and the successor d
 equal the reference chain's.  Riders: C04 C05 C09 C10 C19.
 """
 import itertools
+import numpy as np
 from . import import_eon
 from .core import explore, run_once, segments, CapHit, HarnessError
 from .common import V, Acc, hsh
@@ -64,14 +65,21 @@ def run_spec(spec, props=("C01", "C02")):
     full = bool(spec.get("full", False))
     cls = classify(spec)
     i0_arg = I0[0] if spec.get("i0_single") and len(I0) == 1 else I0
+    # numeric arguments given as Python ints / numpy scalars mean the same numbers
+    at = spec.get("argtype")
+    cast = {None: (lambda x: x), "int": (lambda x: x if x in (INF, -INF) else int(x)), "np": np.float64,
+            "npint": (lambda x: x if x in (INF, -INF) else np.int64(x))}[at]
+    tau_a, gamma_a, tmin_a, tmax_a = cast(tau), cast(gamma), cast(tmin), cast(tmax)
+    if at:
+        cls = cls + "+argtype:" + at
 
     def call(orc, full_):
         kw = dict(initial_infecteds=(i0_arg if not isinstance(i0_arg, list) else list(i0_arg)),
-                  tmin=tmin, tmax=tmax, transmission_weight=tw,
+                  tmin=tmin_a, tmax=tmax_a, transmission_weight=tw,
                   recovery_weight=rw, return_full_data=full_)
         if not sis and R0:
             kw["initial_recovereds"] = list(R0)
-        return getattr(EoN, fn)(G, tau, gamma, **kw)
+        return getattr(EoN, fn)(G, tau_a, gamma_a, **kw)
 
     before = mon.snap(G) if "C19" in props else None
     pol = _state_policy(nodes)
@@ -300,11 +308,27 @@ def specs_sir(tier):
             for I0 in gr.subsets(range(n), 1, 2):
                 for full in (False, True):
                     out.append(dict(fn="Gillespie_SIR", n=n, edges=es, tw=tw, rw=rw, tau=0.3, gamma=0.7, I0=list(I0), R0=[], full=full))
+    out += _argtype_specs("Gillespie_SIR")
     # probability-zero outcomes of the uniform draws (exactly 0.0): zero-weight links/nodes must NEVER be chosen
     for (n, es) in (gr.NAMED["K3"], gr.NAMED["P3"]):
         for I0 in gr.subsets(range(n), 1, 1):
             out.append(dict(fn="Gillespie_SIR", n=n, edges=es, tw="w", rw="rw", tau=0.3, gamma=0.7, I0=list(I0), R0=[], full=False,
                             zero_draws=True, zero_first=True))
+    return out
+
+
+def _argtype_specs(fn):
+    """rates and times passed as Python ints / numpy scalars (also integer-valued ones, also zero)"""
+    out = []
+    for (n, es) in (gr.NAMED["K3"], gr.NAMED["P3"]):
+        for (tw, rw) in ((None, None), ("w", "rw")):
+            for at, tau, gamma, tmin, tmax in (("int", 1, 2, 0, 2), ("int", 2, 1, -1, 1), ("int", 0, 1, 0, 2), ("int", 1, 0, 0, 2),
+                                               ("npint", 1, 2, 0, 2), ("npint", 1, 0, 1, 3),
+                                               ("np", 0.3, 0.7, 0, 2.5), ("np", 1.1, 0.0, 1.5, 3.5), ("np", 0.0, 0.7, 0, 2)):
+                for I0 in ([0], [1]):
+                    for full in (False, True):
+                        out.append(dict(fn=fn, n=n, edges=es, tw=tw, rw=rw, tau=tau, gamma=gamma, I0=I0, R0=[], tmin=tmin, tmax=tmax,
+                                        full=full, argtype=at))
     return out
 
 
@@ -345,4 +369,5 @@ def specs_sis(tier):
                 for full in (False, True):
                     out.append(dict(fn="Gillespie_SIS", n=n, edges=es, tw=None, rw=None, tau=0.3, gamma=0.7,
                                     I0=list(I0), tmin=tmin, tmax=tmax, full=full))
+    out += _argtype_specs("Gillespie_SIS")
     return out
